@@ -103,6 +103,7 @@ def scopes_for_owner(
     def _scope_from_attrset(attrset: Any, *, base: tuple[Scope, ...]) -> Scope:
         """Normalize attribute sets into scopes and attach inherited context."""
         scope_value = _as_scope(getattr(attrset, "values", ()), owner=attrset)
+        scope_value.lexical = bool(getattr(attrset, "recursive", False))
         if base:
             set_resolution_context(attrset, base)
         return scope_value
@@ -145,6 +146,7 @@ def scopes_for_owner(
         if env_scope is not None:
             weak_scope = Scope(env_scope, owner=env_scope.owner)
             weak_scope.weak = True
+            weak_scope.lexical = env_scope.lexical
             scopes.append(weak_scope)
 
     from nix_manipulator.expressions.function.call import FunctionCall  # type: ignore
